@@ -11,6 +11,7 @@ pid, src = sys.argv[1], sys.argv[2].rstrip("/")
 tier = sys.argv[sys.argv.index("--tier") + 1] if "--tier" in sys.argv else "quick"
 chk = sys.argv[sys.argv.index("--check") + 1] if "--check" in sys.argv else pid     # the property whose check is run (default: the seed's own)
 name = os.path.basename(src)
+benign = "--benign" in sys.argv      # a change under which the property still holds: the check must stay quiet (exit 0)
 wt = "/tmp/wt/" + pid
 def sh(cmd, **kw):
     return subprocess.run(cmd, shell=True, stdout=subprocess.PIPE, stderr=subprocess.STDOUT, text=True, **kw)
@@ -35,6 +36,11 @@ res["check_cmd"] = "MINGUS_REPO=<scratch worktree with patch> ./check %s --tier 
 res["checked_with"] = chk
 res["check_exit"] = r.returncode
 res["detected"] = r.returncode == 1 and ("VIOLATION property=%s" % chk) in r.stdout
+if benign:
+    res["kind"] = "benign"
+    res["quiet"] = r.returncode == 0 and "VIOLATION" not in r.stdout
+    if not res["quiet"]:
+        res["check_output_tail"] = r.stdout[-1500:]
 m = re.search(r"rejected clauses: (.*)", r.stdout); res["rejected_clauses"] = json.loads(m.group(1)) if m else {}
 sh("git -C %s checkout -q -- ." % wt); shutil.rmtree("/tmp/audit_work_" + pid, ignore_errors=True)
 ok = res["demo_passes_without_change"] and res["demo_fails_with_change"] and res["tests_passed_with_change"] == 190 and res["tests_failed_with_change"] == 0
@@ -44,7 +50,7 @@ try:
 except Exception:
     am = {}
 res["clause_broken"] = am.get("clause_broken", ""); res["needs_to_manifest"] = am.get("needs_to_manifest", ""); res["files_changed"] = am.get("files_changed", [])
-print(json.dumps({k: res[k] for k in ("confirmed", "detected", "check_exit", "rejected_clauses", "tests_passed_with_change")}))
+print(json.dumps({k: res[k] for k in ("confirmed", "detected", "quiet", "check_exit", "rejected_clauses", "tests_passed_with_change") if k in res}))
 if ok:
     dst = "/verif/seeded/%s" % name if name.startswith(pid + "-") else "/verif/seeded/%s-%s" % (pid, name)
     os.makedirs(dst, exist_ok=True)
